@@ -3,11 +3,13 @@ package props
 import (
 	stdjson "encoding/json"
 	"fmt"
+	"io"
 	"math"
 	"math/big"
 	"reflect"
 	"strconv"
 	"strings"
+	"testing/iotest"
 
 	gojson "github.com/goccy/go-json"
 
@@ -219,7 +221,7 @@ func c16DecodeBatch(c *rt.Ctx, sub int, k intKind, vals []*big.Int) {
 	// other positions on a sample
 	step := 1 + n/96
 	for i := 0; i < n; i += step {
-		for _, pos := range []string{"pointer", "map-key", "string-tag", "stream", "map-key-escaped", "string-tag-escaped"} {
+		for _, pos := range []string{"pointer", "map-key", "string-tag", "stream", "stream-1byte", "map-key-escaped", "string-tag-escaped"} {
 			c16DecodeOne(c, sub, k, pos, texts[i], vals[i], true)
 		}
 	}
@@ -249,12 +251,17 @@ func c16DecodeOne(c *rt.Ctx, sub int, k intKind, pos, lit string, want *big.Int,
 			}
 			err = gojson.Unmarshal([]byte(lit), d.Interface())
 			got = intText(d.Elem())
-		case "stream":
+		case "stream", "stream-1byte":
 			d := reflect.New(k.t)
 			if !valid {
 				c16Prefill(d.Elem())
 			}
-			err = gojson.NewDecoder(strings.NewReader(lit)).Decode(d.Interface())
+			var rd io.Reader = strings.NewReader(lit)
+			if pos == "stream-1byte" {
+				// every byte arrives in a read of its own: the token continues behind each refill
+				rd = iotest.OneByteReader(rd)
+			}
+			err = gojson.NewDecoder(rd).Decode(d.Interface())
 			got = intText(d.Elem())
 		case "pointer":
 			d := reflect.New(reflect.PtrTo(k.t))
@@ -308,7 +315,7 @@ func c16DecodeOne(c *rt.Ctx, sub int, k intKind, pos, lit string, want *big.Int,
 		// the error is reported, but a number was stored all the same
 		c.Violate(rt.Violation{Monitor: "int-decode", Entry: "Unmarshal", Kind: "stores-on-error:" + cls, Ctx: k.name + ":" + pos,
 			Detail: fmt.Sprintf("%s literal %q at %s: error %v, but the destination went from 7 to %s", k.name, lit, pos, err, got), Input: lit, Sub: sub})
-	case !valid && err == nil && pos == "stream":
+	case !valid && err == nil && strings.HasPrefix(pos, "stream") && (cls == "leading-zero" || cls == "non-digit"):
 		// A Decoder reads one value and leaves what follows in the stream: "01" is the value 0
 		// followed by 1, "1-" the value 1 followed by a stray byte, for encoding/json's Decoder
 		// as well. The property demands an error from Unmarshal; here only a wrong stored value
@@ -431,13 +438,13 @@ func c16InvalidLiterals(c *rt.Ctx, sub int, k intKind, r interface{ Intn(int) in
 		if cls == "in-range" || cls == "minus-zero" {
 			continue
 		}
-		for _, pos := range []string{"plain", "pointer", "map-key", "string-tag", "stream", "map-key-escaped", "string-tag-escaped"} {
+		for _, pos := range []string{"plain", "pointer", "map-key", "string-tag", "stream", "stream-1byte", "map-key-escaped", "string-tag-escaped"} {
 			c16DecodeOne(c, sub, k, pos, lit, nil, false)
 		}
 		nt++
 	}
 	// -0 is a valid JSON integer with value 0
-	for _, pos := range []string{"plain", "pointer", "string-tag", "stream", "string-tag-escaped"} {
+	for _, pos := range []string{"plain", "pointer", "string-tag", "stream", "stream-1byte", "string-tag-escaped"} {
 		if k.signed {
 			c16DecodeOne(c, sub, k, pos, "-0", big.NewInt(0), true)
 		}
